@@ -68,7 +68,9 @@ def cases(tier, seed=0):
       if spec.get("adp"):
         continue
       tgt = "DL_POLY_EAM_fs" if spec.get("fs") else "DL_POLY_EAM"
-      cs.append(Case("potable %s %s" % (m, tgt), EP.potable_case, model_name=m, target=tgt, nr=5, nrho=4))
+      # multi-range entries fork once per (grid point, range boundary): a smaller grid keeps them inside the path budget
+      nr, nrho = (3, 4) if spec.get("concrete") else (5, 4)
+      cs.append(Case("potable %s %s" % (m, tgt), EP.potable_case, model_name=m, target=tgt, nr=nr, nrho=nrho))
   return cs
 
 
